@@ -51,13 +51,20 @@ def esc(s):
     return "".join(ESC.get(c, c) for c in s)
 
 
+def opts_of(kind):
+    if kind != "long":
+        return "rw,relatime"
+    s = "rw,lowerdir=" + ":".join("/var/lib/layers/%04d" % i for i in range(200))
+    return s[:2793] + ",x=last"          # 2800 bytes
+
+
 def run_mounts(case, root):
     os.makedirs(os.path.join(root, "self"), exist_ok=True)
     with open(os.path.join(root, "filesystems"), "w") as f:
         f.write("\text4\nnodev\ttmpfs\nnodev\tzfs\nnodev\tproc\n")
     with open(os.path.join(root, "self", "mounts"), "w") as f:
         for e in case["ents"]:
-            f.write("%s %s %s rw,relatime 0 0\n" % (esc(e["dev"]), esc(DIRS[e["dir"]]), e["type"]))
+            f.write("%s %s %s %s 0 0\n" % (esc(e["dev"]), esc(DIRS[e["dir"]]), e["type"], opts_of(e.get("opts"))))
     psutil.PROCFS_PATH = root
     try:
         rows = psutil.disk_partitions(all=case["all"])
